@@ -5,12 +5,14 @@ from fractions import Fraction
 from translate import sgtables, lookupspec
 from vlib import core, sglive
 
-TARGETS = ["Props/C11.vo"]
+TARGETS = ["Props/C11.vo", "Props/C11_SymText.vo"]
 
 
 def variants(n):
     ns = n.replace(" ", "")
-    return [n, n.lower(), n.upper(), "  " + n + " ", ns, " ".join(ns), n.replace(" ", "  "), ns.lower(), " ".join(ns).upper()]
+    return [n, n.lower(), n.upper(), "  " + n + " ", ns, " ".join(ns), n.replace(" ", "  "), ns.lower(), " ".join(ns).upper(),
+            " ".join(ns).lower(), n.replace(" ", "  ").lower(), ("  " + n + " ").lower(), n.replace(" ", "  ").upper(),
+            n[:1].lower() + n[1:].upper(), " ".join(ns)[:1].lower() + " ".join(ns)[1:].upper()]
 
 
 def norm(x):
@@ -38,7 +40,13 @@ def op_text(R, t, style):
         tt = ""
         if f:
             tt = "%+d/%d" % (f.numerator, f.denominator) if style != 2 else "%+.6f" % float(f)
-        if style == 1:      # translation first
+            if style in (7, 8):     # decimal written without the leading zero: x+.5, .25+y
+                tt = ("%+.6f" % float(f)).replace("+0.", "+.").replace("-0.", "-.").rstrip("0")
+            elif style == 9:        # decimal point inside a fraction: 1./2
+                tt = "%+d./%d" % (f.numerator, f.denominator)
+            elif style == 10:       # exponent form
+                tt = "%+e" % float(f)
+        if style in (1, 8):      # translation first
             s = (tt + "".join(terms))
         else:
             s = "".join(terms) + tt
@@ -66,13 +74,14 @@ def run(ctx):
 
     ctx.trusted += ["Coq 8.16.1 kernel + vm_compute", "translate/sgtables.py, translate/lookupspec.py (fail-closed ast translators)",
                     "Python hash() of a tuple of strings has no collision between different operation lists (outside the model)",
-                    "str(SymOp) '%6.3f' rendering modelled as (1000*R_ij, round(1000*t_i)); ASCII model of str.strip/upper/lower/replace"]
-    ctx.assumptions += ["identifier variants quantified: the 9 spellings of Model/C11_LookupDefs.variants; unknown identifiers: 20 listed strings/ints + random junk on the implementation",
+                    "str(SymOp) '%6.3f' rendering modelled as (1000*R_ij, round(1000*t_i)); ASCII model of str.strip/upper/lower/replace",
+                    "Model/C11_SymText.v is a hand-written model of getSymOp/_parseSymOpTranslation (ASCII, exact rationals); tied by evaluation on exhaustive short strings, grammar renderings and single-character faults (vlib/symtext.py); the regular expressions themselves are regenerated as data by translate/c17_numeric.py (C17)"]
+    ctx.assumptions += ["identifier variants quantified: the 15 spellings of Model/C11_LookupDefs.variants; unknown identifiers: 20 listed strings/ints + random junk on the implementation",
                         "operation lists: theorems hold for every list; entries rendered by %6.3f"]
     with core.BuildLock():
         ok = ctx.regen("sgtables", sgtables.generate) and ctx.regen("lookupspec", lookupspec.generate)
         if ok:
-            ctx.coq(TARGETS, theorems_in={"Props/C11"}, timeout=1500)
+            ctx.coq(TARGETS, theorems_in={"Props/C11", "Props/C11_SymText"}, timeout=1500)
 
         # ---------- correspondence: model vs implementation -----------------
         rng = ctx.rng
@@ -123,6 +132,24 @@ def run(ctx):
                 "Definition r2 := map (fun o => match find_space_group all_settings o with Some (s, b) => (sg_number s) * 2 + (if b then 1 else 0) | None => -1 end) opl.",
                 "Eval vm_compute in (r1, r2)."]
         rc, out = ctx.coq_eval("c11cases", "\n".join(text), timeout=900)
+        # ---------- correspondence: text form of operations, Model/C11_SymText vs getSymOp ----------
+        from vlib import symtext
+        tparts = symtext.exhaustive_tparts(3 if ctx.tier == "quick" else 4) + [symtext.rand_tpart(rng) for _ in range(400 if ctx.tier == "quick" else 4000)]
+        optexts = list(symtext.CORPUS_OPS)
+        for _ in range(300 if ctx.tier == "quick" else 4000):
+            o = symtext.rand_op(rng)
+            optexts.append(o)
+            optexts += symtext.faults(rng, o, 3)
+        st_res, st_err = symtext.run_model(ctx, tparts, optexts)
+    if st_res is None:
+        ctx.obligation("correspondence:symop-text-model-evaluates", False, st_err)
+    else:
+        ctx.obligation("correspondence:symop-text-model-evaluates", True)
+        st_bad, st_skipped = symtext.compare(ctx, tparts, optexts, st_res)
+        ctx.obligation("correspondence:symop-text-model-vs-getSymOp", not st_bad,
+                       "; ".join("%s %r: implementation %s, model %s" % b for b in st_bad[:6]))
+        ctx.coverage.update({"symop_text": {"translation_parts": len(tparts), "operations": len(optexts), "value_comparisons_skipped_for_magnitude": st_skipped,
+                                            "alphabet_exhaustive": symtext.ALPHA_T, "exhaustive_length": 3 if ctx.tier == "quick" else 4}})
     nums = [int(x) for x in re.findall(r"-?\d+", out.split(":")[0].replace("%Z", ""))] if rc == 0 else []
     if rc != 0 or len(nums) != len(keys) + len(opcases):
         ctx.obligation("correspondence:model-evaluates", False, "rc=%s, %d numbers for %d cases: %s" % (rc, len(nums), len(keys) + len(opcases), out[-400:]))
@@ -186,7 +213,7 @@ def run(ctx):
         for trial in range(2):
             perm = ops[:]
             ctx.rng.shuffle(perm)
-            for style in (0, 1, 2, 3, 4, 5, 6):
+            for style in (0, 1, 2, 3, 4, 5, 6, 7, 8, 9, 10):
                 try:
                     texts = [op_text(R, t, style) for R, t in perm]
                     live = [getSymOp(s) for s in texts]
